@@ -48,6 +48,12 @@ func (fr *Frame) applySpec(sp *FuncSpec, fn *ssa.Function, name string, args []V
 		u.m.noteWrite(cn.Name, Term{})
 		st.heap[cn.Name] = u.c.Fresh("hv_"+cn.Name, cn.Sort)
 	}
+	// the callee may allocate: the allocation counter moves before the havoced values are typed, so that a
+	// havoced reference may designate an object the callee allocated (typing it against the old counter made
+	// "ensures fresh(self.f)" contradictory and the code after the call unreachable)
+	na := u.c.Fresh("alloc", SInt)
+	u.c.Assume(Ge(na, st.alloc))
+	st.alloc = na
 	// object-precise footprints: self.<fields> (fields of the receiver object only) and mapobj(<expr>)
 	// (entries of one map object only)
 	for _, item := range sp.Assigns {
@@ -116,9 +122,6 @@ func (fr *Frame) applySpec(sp *FuncSpec, fn *ssa.Function, name string, args []V
 			st.ghost[k] = u.c.Fresh("ghost_"+k, SInt)
 		}
 	}
-	na := u.c.Fresh("alloc", SInt)
-	u.c.Assume(Ge(na, st.alloc))
-	st.alloc = na
 	for _, cn := range comps {
 		if u.m.refKind[cn.Name] {
 			u.m.refAxiom(st.heap[cn.Name], st.alloc)
